@@ -257,7 +257,8 @@ Definition run_c12 (st : dstate) (xs : list sexp) : outcome :=
                               (L.R).X the scalar of R has already replaced the map of L when X
                               brings a map again, in L.(R.X) it never appears *)
                            let all_paths := ([] :: map fst (nodes s tr l) ++ map fst (nodes s tr r) ++ map fst (nodes s tr x))%list in
-                           let kc := existsb (fun q => kind_changed s tr l r q || kind_changed s tr r x q || kind_changed s tr l x q) all_paths in
+                           (* only a change of kind between R and X can break it (C12_merge_is_associative_up_to_member_order) *)
+                           let kc := existsb (fun q => kind_changed s tr r x q) all_paths in
                            chk (veq_assoc s tr a b)
                                (if kc then "prop merge is associative up to member order: not when one operand gives a field a value of another kind (scalar / list / map) than another operand holds there"
                                 else "prop merge is associative up to member order")
